@@ -26,12 +26,18 @@ def kid? : Sexp → Option (Name × Option MId)
   | .list [.atom n, i] => do pure (n, some (← asNat? i))
   | _ => none
 
-/-- `(mod (params …) (buffers …) (plain …) (kids …))` -/
+/-- `(mod (params …) (buffers …) (plain …) (kids …) [(np name…)] [custom])` -/
 def mod? : Sexp → Option Mod
-  | .list [.atom "mod", .list (.atom "params" :: ps), .list (.atom "buffers" :: bs),
-           .list (.atom "plain" :: ds), .list (.atom "kids" :: ks)] => do
-      pure { params := ← ps.mapM optEntry?, buffers := ← bs.mapM optEntry?,
-             plain := ← ds.mapM entry?, kids := ← ks.mapM kid? }
+  | .list (.atom "mod" :: fields) =>
+    fields.foldlM (fun (md : Mod) f =>
+      match f with
+      | .list (.atom "params" :: ps) => do pure { md with params := ← ps.mapM optEntry? }
+      | .list (.atom "buffers" :: bs) => do pure { md with buffers := ← bs.mapM optEntry? }
+      | .list (.atom "plain" :: ds) => do pure { md with plain := ← ds.mapM entry? }
+      | .list (.atom "kids" :: ks) => do pure { md with kids := ← ks.mapM kid? }
+      | .list (.atom "np" :: ns) => do pure { md with nonPersistent := ← ns.mapM asAtom? }
+      | .atom "custom" => some { md with custom := true }
+      | _ => none) {}
   | _ => none
 
 def heap? : Sexp → Option (List Mod)
@@ -58,6 +64,7 @@ def td? : Sexp → Option (List (Name × PTree))
 partial def stmt? : Sexp → Option Stmt
   | .atom "nop" => some .nop
   | .atom "raise" => some .raise
+  | .atom "raiseb" => some .raiseBase
   | .list (.atom "block" :: p :: m :: body) => do
       pure (.block (← td? p) (← asNat? m) false (← body.mapM stmt?))
   | .list (.atom "blockt" :: p :: m :: body) => do      -- the parameter tensordict is a temporary
@@ -91,7 +98,7 @@ def errSexp : Err → Sexp
   | .key => .atom "key" | .type => .atom "type" | .cycle => .atom "cycle" | .attr => .atom "attr" | .fuel => .atom "fuel"
 
 def statusSexp : Status → Sexp
-  | .normal => .atom "normal" | .raised => .atom "raised" | .entryFailed => .atom "entry-failed"
+  | .normal => .atom "normal" | .raised => .atom "raised" | .raisedBase => .atom "raised-base" | .entryFailed => .atom "entry-failed"
   | .exitFailed => .atom "exit-failed"
 
 def swapAns (n : Nat) : Except (Err × Heap) (Heap × List (Name × PTree)) → Sexp
@@ -113,6 +120,21 @@ def handleC13 (cmd : String) (args : List Sexp) : Option Sexp :=
       | .ok none => pure (tagged "ok" [.atom "none"])
       | .ok (some t) => pure (tagged "ok" [tdSexp t])
       | .error e => pure (tagged "err" [errSexp e])
+  | "c13.from_module_sd", [hp, root] => do
+      let ms ← heap? hp; let root ← asNat? root
+      match fromModuleSD (toHeap ms) (ms.length + 1) root with
+      | .ok none => pure (tagged "ok" [.atom "none"])
+      | .ok (some t) => pure (tagged "ok" [tdSexp t])
+      | .error e => pure (tagged "err" [errSexp e])
+  | "c13.roundtrip_sd", [hp, root, p] => do
+      -- to_module(use_state_dict=True), then the same call on the swap with swap_dest = p
+      let ms ← heap? hp; let root ← asNat? root; let p ← td? p
+      match swapSD (toHeap ms) root p with
+      | .error (e, h) => pure (tagged "err" [errSexp e, heapSexp h ms.length])
+      | .ok (h1, s) =>
+        match swapSD h1 root s with
+        | .error (e, h) => pure (tagged "err2" [errSexp e, heapSexp h ms.length])
+        | .ok (h2, _) => pure (tagged "ok" [heapSexp h2 ms.length, tdSexp s])
   | "c13.swap", [hp, root, p] => do
       let ms ← heap? hp; let root ← asNat? root; let p ← td? p
       pure (swapAns ms.length (swap (toHeap ms) root p))
